@@ -187,6 +187,11 @@ def zite(c, a, b):
     if isinstance(a, tuple) and isinstance(b, tuple) and len(a) == len(b):
         return tuple(zite(c, x, y) for x, y in zip(a, b))
     if isinstance(a, Seq) and isinstance(b, Seq):
+        # an empty concrete side has no elements: the other side's element function serves both
+        if b.concrete_len() and b.n == 0:
+            return Seq(zite(c, a.n, 0), a._at, a.kind)
+        if a.concrete_len() and a.n == 0:
+            return Seq(zite(c, 0, b.n), b._at, b.kind)
         return Seq(zite(c, a.n, b.n), lambda i, a=a, b=b: zite(c, a.at(i), b.at(i)), a.kind)
     if isinstance(a, DictV) and isinstance(b, DictV):
         return DictV(lambda k: zite(c, a.dom(k), b.dom(k)), lambda k: zite(c, a.val(k), b.val(k)),
